@@ -506,6 +506,29 @@ def sorted_(I, x, key):
     raise Unsupported(f'sorted() of {x!r}')
 
 
+def _elems_of_list(I, l):
+    if isinstance(l, MList) and l.items is not None:
+        s = SSet.empty()
+        for x in l.items:
+            s = s.add(x)
+        return s, SInt.of(len(l.items))
+    if isinstance(l, MList) and 'elems' in l.g:
+        return l.g['elems'], SInt.of(l.g['n']) if 'n' in l.g else SInt.fresh('n')
+    raise Unsupported(f'list concatenation with {l!r}')
+
+
+def list_concat(I, a, b, inplace):
+    """a + b / a += b where at least one side is an abstract list of str described by its element set."""
+    ea, na = _elems_of_list(I, a)
+    eb, nb = _elems_of_list(I, b)
+    g = {'elems': ea.union(eb), 'n': na + nb}
+    if inplace:
+        a.items = None
+        a.g = g
+        return a
+    return MList(None, **g)
+
+
 class SortedKeys:
     """sorted(S) for a set of str: the strictly increasing enumeration of S."""
 
@@ -715,7 +738,27 @@ def _dict_get(I, d, k, default=None):
     return default
 
 
-_DICT_METHODS = {'items': _dict_items, 'values': _dict_values, 'keys': _dict_keys, 'copy': _dict_copy, 'get': _dict_get}
+def _dict_update(I, d, other=None, **kw):
+    """dict.update with concrete keys: existing keys are rebound, new ones appended."""
+    pairs = list(other.pairs) if isinstance(other, MDict) else []
+    if other is not None and not isinstance(other, MDict):
+        raise Unsupported('dict.update with a non-dict argument')
+    pairs += list(kw.items())
+    for k, v in pairs:
+        ck = conc(k)
+        if ck is None:
+            raise Unsupported('dict.update with a symbolic key')
+        for i, (k0, _) in enumerate(d.pairs):
+            if conc(k0) == ck:
+                d.pairs[i] = (k0, v)
+                break
+        else:
+            d.pairs.append((k, v))
+    return None
+
+
+_DICT_METHODS = {'items': _dict_items, 'values': _dict_values, 'keys': _dict_keys, 'copy': _dict_copy, 'get': _dict_get,
+                 'update': _dict_update}
 
 
 def _bytes_join(I, sep, xs):
